@@ -12,7 +12,7 @@ package operator
 //@ spec func validBucketShape(s string) bool = len(s) >= 1 && len(s) <= 63 && bucketAlnum(s[0]) && bucketAlnum(s[len(s)-1]) && (forall i int :: 0 <= i && i < len(s) ==> bucketChar(s[i]))
 
 //@ func sanitizeBucketName
-//@   exact_strings
+//@   exact_strings ops
 //@   ensures [C39.bucket_charset] forall i int :: 0 <= i && i < len(result) ==> bucketChar(result[i])
 //@   ensures [C39.bucket_edges] len(result) >= 1 && bucketAlnum(result[0]) && bucketAlnum(result[len(result)-1])
 //@   ensures [C39.bucket_max_length] len(result) <= 63
@@ -38,7 +38,7 @@ package operator
 //@ spec func hostOf(cluster *github.com/KafScale/platform/api/v1alpha1.KafscaleCluster, i int32) string = ite(replicasOf(cluster) > 1 || trimSpace(cluster.Spec.Brokers.AdvertisedHost) == "", stableHost(cluster.Name, cluster.Namespace, i), trimSpace(cluster.Spec.Brokers.AdvertisedHost))
 
 //@ func BuildClusterMetadata
-//@   exact_strings
+//@   exact_strings ops
 //@   requires cluster.Spec.Brokers.Replicas != nil ==> *cluster.Spec.Brokers.Replicas <= 1048576
 //@   requires forall t int :: 0 <= t && t < len(topics) ==> 0 <= topics[t].Spec.Partitions && topics[t].Spec.Partitions <= 1048576
 //@   at TopicIDForName#* havoc
@@ -64,7 +64,7 @@ package operator
 // 1..63 characters from [a-z0-9-], first and last alphanumeric. (The S3 minimum of three characters is not part
 // of this clause, see props/C39.json.)
 //@ func defaultEtcdSnapshotBucket
-//@   exact_strings
+//@   exact_strings ops
 //@   ensures [C39.derived_bucket_is_valid_shape] validBucketShape(result)
 
 // ---- the brokers the operator deploys ------------------------------------------------------------------------
@@ -75,11 +75,11 @@ package operator
 // both fields, just before it renders the container (the rest of the closure - container, owner reference - does
 // not assign them and is cut).
 //@ func (r *ClusterReconciler) reconcileBrokerDeployment$1
-//@   exact_strings
+//@   exact_strings ops
 //@   at brokerContainer#1 before assert [C39.statefulset_replicas_from_spec] (*sts).Spec.Replicas != nil && *(*sts).Spec.Replicas == ite((*cluster).Spec.Brokers.Replicas != nil, *(*cluster).Spec.Brokers.Replicas, 3) && ((*cluster).Spec.Brokers.Replicas != nil && *(*cluster).Spec.Brokers.Replicas >= 1 ==> *(*sts).Spec.Replicas == replicasOf(*cluster))
 //@   at brokerContainer#1 before assert [C39.statefulset_governing_service] (*sts).Spec.ServiceName == (*cluster).Name + "-broker-headless"
 //@   at brokerContainer#1 before stop
 //@ func (r *ClusterReconciler) reconcileBrokerDeployment
-//@   exact_strings
+//@   exact_strings ops
 //@   at CreateOrUpdate#1 before assert [C39.statefulset_name] sts != nil && sts.Name == cluster.Name + "-broker" && sts.Namespace == cluster.Namespace
 //@   at CreateOrUpdate#1 before stop
